@@ -45,7 +45,11 @@ LEVEL.update({
 LEVEL.update({
  "C13": ("The writer's escape classes (all 256 octets x quoted/unquoted) and the tokeniser's character classes (4 states x 130 characters) are extracted as condition tables from the MIR and compared exhaustively: everything written literally is an ordinary token character, every special character is escaped, backslash-X never uses a digit, backslash-DDD is written and read as the same three decimal digits; RecordType Display/FromStr tables are inverse; every RDATA variant the writer prints has a parser arm with the same fields in the same order; $ORIGIN / relative-name conditions agree. Whole-zone equality is declined (and `@`/`*` labels are documented as undecided).", "3/C13"),
 })
+LEVEL.update({
+ "C11": ("The stated rejections ($INCLUDE, second SOA, wildcard SOA, outside the apex, no origin, nothing to inherit, class other than IN) exist and dominate loading; the inheritance state is updated first thing in both record arms; the @ / absolute / relative and * / *. dispatch, the SOA => authoritative apex construction and the max(soa.minimum, ttl) clamp on both insert paths have the required shape; no parser Result is discarded outside the documented back-tracking helper; the tokeniser's character classes are tabulated against the writer's (shared with C13.1). That parsing yields exactly the denoted records for every rendering is declined.", "3/C11"),
+})
 TECH = {
+ "C11": "custom MIR rules: error-exit guard sets, first-in-arm dominance, dispatch tables from edge facts, ORIGIN of constructor arguments, result-consumption (error discipline) scan, TABULATE",
  "C13": "custom MIR rules: TABULATE (path conditions over constants evaluated on finite domains), ARM-TABLE inversion, format-template decoding, sibling agreement of writer/parser arms",
  "C17": "custom MIR rules: panic-site enumeration + linear-constraint discharge over edge conditions (CUT-REACH for disjunctive guards), loop progress, recursion measure",
  "C03": "custom MIR rules: panic-site enumeration + discharge by linear constraints over dominating edge conditions (LEN-AI), loop progress, recursion measure, who-constructs, reader SEQ vs RFC table",
